@@ -42,6 +42,13 @@ def items(tier):
             for cw in range(3):
                 out.append(("bundle", n, 1, ib, cw, k))
                 k += 1
+    # pure reference cycles between a plain instance and an array (no signal in the group), both ways of writing the array
+    for n in (1, 2, 3):
+        for kind in ("mod", "ext", "prim"):
+            for form in ("ctor", "mult"):
+                for who in ("both", "solo_refs_arr", "arr_refs_solo"):
+                    out.append(("cycle", n, 1, kind, (form, who), k))
+                    k += 1
     for kind in KINDS:
         for n in (1, 2, 3):
             for w in ((1, 2) if kind != "prim" else (1,)):
@@ -80,10 +87,22 @@ def design_bundle(desc):
 def design(desc):
     if desc[0] == "bundle":
         return design_bundle(desc)
-    kind, n, w, ia, ib, k = desc
-    m = conn_menu(w, n, 6)
-    ea, eb = m[ia], m[ib]
-    if ea[0] == "nc":
+    cyc = None
+    if desc[0] == "cycle":
+        _c, n, w, kind, cyc, k = desc
+        pa_ = "p" if kind == "prim" else "a"
+        ea = pref("solo", "a") if cyc[1] != "solo_refs_arr" else None
+        eb = idx(sig("t"), 2)
+        m = None
+    else:
+        kind, n, w, ia, ib, k = desc
+        m = conn_menu(w, n, 6)
+        ea, eb = m[ia], m[ib]
+    return _design(kind, n, w, ea, eb, k, cyc)
+
+
+def _design(kind, n, w, ea, eb, k, cyc):
+    if ea is not None and ea[0] == "nc":
         ea = nc(ea[1] + "a", ea[2] and ea[2] + "_a")
     if eb[0] == "nc":
         eb = nc(eb[1] + "b", eb[2] and eb[2] + "_b")
@@ -100,7 +119,9 @@ def design(desc):
     exts[en] = ed
     solo_conns = []
     uses = repr(ea) + repr(eb)
-    if "'solo', 'a'" not in uses:
+    if cyc and cyc[1] != "arr_refs_solo":
+        solo_conns.append(("a", pref("arr", "p" if kind == "prim" else "a")))
+    elif "'solo', 'a'" not in uses:
         solo_conns.append(("a", sig("s")))
     if "'solo', 'b'" not in uses:
         solo_conns.append(("b", sig("v")))
@@ -127,6 +148,9 @@ def design(desc):
         mods["Inner"] = inner
         target = ("mod", "Inner")
         pa, pb = "a", "b"
-    decls.append(("array", "arr", target, n, [(pa, ea), (pb, eb)]))
+    decls.append(("array", "arr", target, n, ([(pa, ea)] if ea is not None else []) + [(pb, eb)]))
     mods["Top"] = {"name": "Top", "style": ["proc", "class", "gen"][k % 3], "decls": decls}
-    return f"F5/{kind}", {"bundles": {}, "exts": exts, "modules": mods, "top": "Top"}
+    # every other design writes its arrays as `n * Target(conns)`
+    if (cyc and cyc[0] == "mult") or (not cyc and (k // 3) % 2 == 1):
+        mods["Top"]["array_form"] = "mult"
+    return f"F5/{kind}" + ("/cycle" if cyc else ""), {"bundles": {}, "exts": exts, "modules": mods, "top": "Top"}
